@@ -574,7 +574,12 @@ class BaseNode402(RemoteNode):
             # An automatic transition of the drive got there in the meantime
             return True
         try:
-            self.controlword = State402.TRANSITIONTABLE[(from_state, target_state)]
+            controlword = State402.TRANSITIONTABLE[(from_state, target_state)]
+            if controlword == State402.CW_SWITCH_ON_DISABLED:
+                # Fault reset happens on the rising edge of bit 7, which may
+                # still be set from an earlier reset
+                self.controlword = State402.CW_DISABLE_VOLTAGE
+            self.controlword = controlword
         except KeyError:
             raise ValueError(
                 f'Illegal state transition from {from_state} to {target_state}')
